@@ -2,9 +2,9 @@
 // Solver counter-example(s) produced by Kani's concrete playback; replay with
 //   ./check C01 --replay /verif/replay/cases/c01__q__rank9_n9_len575.rs
 
-// failed check (assertion): assertion failed: r.rank(p) == exp
+// failed check (assertion): assertion failed: r.rank_zero(p) == p - exp
 #[test]
-fn kani_concrete_playback_rank9_n9_len575_18138070336920743114() {
+fn kani_concrete_playback_rank9_n9_len575_16833654223343427306() {
     let concrete_vals: Vec<Vec<u8>> = vec![
         // 0ul
         vec![0, 0, 0, 0, 0, 0, 0, 0],
@@ -12,48 +12,20 @@ fn kani_concrete_playback_rank9_n9_len575_18138070336920743114() {
         vec![0, 0, 0, 0, 0, 0, 0, 0],
         // 0ul
         vec![0, 0, 0, 0, 0, 0, 0, 0],
-        // 3548818914181906432ul
-        vec![0, 0, 0, 0, 0, 240, 63, 49],
-        // 18446744071595294711ul
-        vec![247, 255, 250, 129, 255, 255, 255, 255],
-        // 18446744073709551615ul
-        vec![255, 255, 255, 255, 255, 255, 255, 255],
-        // 18446744004990074879ul
-        vec![255, 255, 255, 255, 239, 255, 255, 255],
-        // 18437736874421256191ul
-        vec![255, 255, 255, 253, 255, 255, 223, 255],
-        // 18446603336221196287ul
-        vec![255, 255, 255, 255, 255, 127, 255, 255],
-        // 827ul
-        vec![59, 3, 0, 0, 0, 0, 0, 0],
-    ];
-    kani::concrete_playback_run(concrete_vals, crate::c01::q::rank9_n9_len575);
-}
-
-// failed check (assertion): assertion failed: r.num_ones() == total
-#[test]
-fn kani_concrete_playback_rank9_n9_len575_11296786555109733334() {
-    let concrete_vals: Vec<Vec<u8>> = vec![
-        // 18446744073709551615ul
-        vec![255, 255, 255, 255, 255, 255, 255, 255],
-        // 18446744073709551615ul
-        vec![255, 255, 255, 255, 255, 255, 255, 255],
-        // 18446744073709551615ul
-        vec![255, 255, 255, 255, 255, 255, 255, 255],
-        // 18446744073709551615ul
-        vec![255, 255, 255, 255, 255, 255, 255, 255],
-        // 18446744073709551615ul
-        vec![255, 255, 255, 255, 255, 255, 255, 255],
-        // 18446744073709551615ul
-        vec![255, 255, 255, 255, 255, 255, 255, 255],
-        // 18446744073709551615ul
-        vec![255, 255, 255, 255, 255, 255, 255, 255],
-        // 18446744073709551615ul
-        vec![255, 255, 255, 255, 255, 255, 255, 255],
-        // 18446744073709551615ul
-        vec![255, 255, 255, 255, 255, 255, 255, 255],
-        // 543ul
-        vec![31, 2, 0, 0, 0, 0, 0, 0],
+        // 0ul
+        vec![0, 0, 0, 0, 0, 0, 0, 0],
+        // 0ul
+        vec![0, 0, 0, 0, 0, 0, 0, 0],
+        // 0ul
+        vec![0, 0, 0, 0, 0, 0, 0, 0],
+        // 0ul
+        vec![0, 0, 0, 0, 0, 0, 0, 0],
+        // 0ul
+        vec![0, 0, 0, 0, 0, 0, 0, 0],
+        // 0ul
+        vec![0, 0, 0, 0, 0, 0, 0, 0],
+        // 9223372036854775808ul
+        vec![0, 0, 0, 0, 0, 0, 0, 128],
     ];
     kani::concrete_playback_run(concrete_vals, crate::c01::q::rank9_n9_len575);
 }
